@@ -88,7 +88,7 @@ def run(sid, tier="quick", props=None):
             results[p] = {"rc": rc, "tier": tier, "lines": lines[:4], "wall_s": round(time.time() - t0, 1)}
             print(sid, p, "rc=%d" % rc, (lines[0] if lines else out.strip().splitlines()[-1][:200] if out.strip() else ""))
     finally:
-        sh(["git", "-C", REPO, "checkout", "--", "src"])
+        sh(["git", "-C", REPO, "checkout", "--", "."])
     meta.setdefault("checks", {}).update(results)
     meta["detected_by"] = sorted(p for p, r in meta["checks"].items() if r["rc"] == 1)
     json.dump(meta, open(os.path.join(d, "meta.json"), "w"), indent=1)
